@@ -31,7 +31,7 @@ THEOREMS = [
     "Pt.groups_valid", "Pt.lower_reshape_correct_C", "Pt.lower_reshape_correct_F",
     "Pt.lower_reshape_total",
     "Pt.pad_sound",
-    "Pt.lower_einsum_correct",
+    "Pt.lower_einsum_correct", "Pt.lower_advindex_correct",
 ]
 
 
